@@ -20,6 +20,13 @@ __init__):
  (S) serialization: for every resource class X, gcp/azure_resource_from_dict(X(..).to_dict()) is an X with identical fields
      and bills identical quantities; {GCP,Azure}SlimInstanceConfig.from_dict(c.to_dict()) has the same machine type (hence
      cores and memory), job_private flag and, element-wise, the round-tripped resources.
+ (M) {gcp,azure}_cores_mcpu_to_memory_bytes (the memory figure of every pool job): exactly floor(mcpu * per-core bytes / 1000)
+     for any positive per-core table value, hence super-additive in mcpu and equal to cores * per-core for the whole worker.
+ (P) PoolConfig.convert_requests_to_resources: the memory it returns is (M) of the cores it returns; the cores fit the worker.
+ (W) worker.py Job.__init__ (fragment): the job is billed quantified_resources(spec cores, spec memory, the external storage
+     the worker attaches for it) - 0 on a job-private instance, the request on a pool worker; worker.py keeps these fields
+     fixed after construction, creates disks of exactly that size and reports self.resources; the drivers' create_vm bill the
+     whole worker as quantified_resources(cores * 1000, machine memory, 0).
 """
 from __future__ import annotations
 
@@ -401,6 +408,260 @@ def config_round_trip(ctx, cloud):
         ctx.add(core.decided('C13/%s/%s/billing-relevant-fields-present' % (cloud, cls), {'cores', 'job_private', 'resources'} <= set(cfg.fields), repr(sorted(cfg.fields)), kind='vacuity'))
 
 
+MEMORY_HELPERS = {
+    # cloud: (path, the helper that produces the memory figure of a pool job, the per-core table lookup it uses, parameters of the lookup)
+    'gcp': ('batch/batch/cloud/gcp/resource_utils.py', 'gcp_cores_mcpu_to_memory_bytes', 'gcp_worker_memory_per_core_mib', ('machine_family', 'worker_type')),
+    'azure': ('batch/batch/cloud/azure/resource_utils.py', 'azure_cores_mcpu_to_memory_bytes', 'azure_worker_memory_per_core_mib', ('worker_type',)),
+}
+MIB = 1024 * 1024
+
+
+def memory_share(ctx, cloud):
+    """(M) <cloud>_cores_mcpu_to_memory_bytes - the function that produces the memory figure written into the spec of (and
+    billed to) every pool job, called by PoolConfig.convert_requests_to_resources and the front end: for ALL mcpu >= 0 and ANY
+    per-core table value P > 0 (MiB; the lookup is an uninterpreted function of the worker type here, its real values are
+    checked to be positive integers below) the real body returns exactly the per-core share
+         memory(mcpu) = floor(mcpu * P * 2**20 / 1000)
+    hence memory(a) + memory(b) <= memory(a + b) (the jobs packed on a worker never add up to more memory than the worker's
+    cores * P MiB - with R2 of GCPMemoryResource this is the memory half of the packing argument) and
+    memory(cores * 1000) = cores * P * 2**20 (a job using the whole worker is given, and billed, the whole worker's memory).
+    Floats are reals (the quotient mcpu / 1000 is exact in binary floating point for the quarter-core multiples the front end
+    admits; recorded as an assumption)."""
+    path, helper, lookup, lparams = MEMORY_HELPERS[cloud]
+    cx = ClassIndex([path])
+    if helper not in cx.funcs or lookup not in cx.funcs:
+        raise pyvc.Undecided('anchor-moved: %s / %s not found in %s' % (helper, lookup, path))
+    P = z3.Function('per_core_mib_' + cloud, *([pyvc.U] * len(lparams) + [z3.IntSort()]))
+    seen = []
+
+    def per_core(eng, st, args, kw, node):
+        vals = [pyvc.to_z3(a, 'U') for a in list(args) + [kw[k] for k in lparams[len(args):]]]
+        seen.append(vals)
+        return P(*vals)
+
+    inl = Inliner(ctx, cx, calls={lookup: per_core})
+    inl.contract_kw = {'float_as_real': True}
+    _, hfn = cx.funcs[helper]
+    hparams = [a.arg for a in hfn.args.args]
+    ctx.add(core.decided('C13/%s/%s/parameters-are-mcpu-and-the-worker-type' % (cloud, helper), hparams == ['mcpu'] + list(lparams), repr(hparams), kind='vacuity'))
+    wt = [z3.Const('mem_%s' % p, pyvc.U) for p in lparams]
+    p_ = P(*wt)
+    a, b, cores = z3.Int('mcpu_a'), z3.Int('mcpu_b'), z3.Int('worker_cores')
+    hyp = [a >= 0, b >= 0, cores >= 1, p_ >= 1]
+    ctx.under_contract(path, helper)
+
+    def memory(mcpu, tag):
+        outs = inl.run_function(helper, [mcpu] + wt, pc=hyp, label='%s[%s]' % (helper, tag))
+        raised, val = [], None
+        for kind, payload, s in outs:
+            cond = z3.And(*s.pc[len(hyp):]) if len(s.pc) > len(hyp) else z3.BoolVal(True)
+            if kind == 'raise':
+                raised.append(cond)
+                continue
+            if payload is None:
+                raise pyvc.Undecided('%s returns None on some path' % helper)
+            v = pyvc.to_z3(payload, 'int')
+            if not z3.is_int(v):
+                raise pyvc.Undecided('%s does not return an int: %r' % (helper, v))
+            val = v if val is None else z3.If(cond, v, val)
+        if val is None:
+            raise pyvc.Undecided('%s has no normal outcome' % helper)
+        return (z3.Or(*raised) if raised else z3.BoolVal(False)), val
+
+    (ra, ma), (rb, mb), (rab, mab), (rw, mw) = memory(a, 'a'), memory(b, 'b'), memory(a + b, 'a+b'), memory(cores * 1000, 'whole')
+    ctx.add(core.decided('C13/%s/%s/uses-the-per-core-table-of-its-worker-type' % (cloud, helper), bool(seen) and all(all(z3.eq(x, y) for x, y in zip(v, wt)) for v in seen), repr(seen[:2]), kind='vacuity'))
+    name = 'C13/%s/%s/' % (cloud, helper)
+    ctx.add(core.valid(name + 'never-raises-for-non-negative-mcpu', hyp, z3.Not(z3.Or(ra, rw))))
+    B = p_ * MIB
+    ctx.add(core.valid(name + 'memory-is-exactly-the-per-core-share-rounded-down', hyp, z3.And(1000 * ma <= a * B, a * B < 1000 * (ma + 1))))
+    ctx.add(core.valid(name + 'two-jobs-memory-at-most-memory-of-their-sum', hyp, ma + mb <= mab))
+    ctx.add(core.valid(name + 'whole-worker-memory-is-cores-times-the-per-core-share', hyp, mw == cores * B))
+    ctx.add(core.valid(name + 'memory-non-negative', hyp, ma >= 0))
+    # the same three clauses for every value the real table holds (linear arithmetic: decided without the nonlinear product)
+    for key, mib in per_core_table(ctx, cloud, cx, lookup):
+        h2 = hyp + [p_ == mib]
+        ctx.add(core.valid(name + 'two-jobs-memory-at-most-memory-of-their-sum/%s' % key, h2, ma + mb <= mab))
+        ctx.add(core.valid(name + 'whole-worker-memory-is-cores-times-the-per-core-share/%s' % key, h2, mw == cores * mib * MIB))
+        ctx.add(core.valid(name + 'memory-is-exactly-the-per-core-share-rounded-down/%s' % key, h2, z3.And(1000 * ma <= a * mib * MIB, a * mib * MIB < 1000 * (ma + 1))))
+    ctx.add(core.satisfiable(name + 'canary/memory-can-be-positive', hyp + [ma > 0]))
+    ctx.add(core.satisfiable(name + 'canary/memory-not-always-the-whole-core', hyp + [ma < B]))
+
+
+def per_core_table(ctx, cloud, cx, lookup):
+    """the values the real per-core lookup can return, from the real source: [(key text, MiB)]; obligation: positive ints"""
+    path, fn = cx.funcs[lookup]
+    vals = []
+    if cloud == 'gcp':
+        tree = pyast.parse(core.read_repo(path))
+        tab = [n.value for n in tree.body if isinstance(n, pyast.Assign) and any(isinstance(t, pyast.Name) and t.id == 'MEMORY_PER_CORE_MIB' for t in n.targets)]
+        returns = [pyast.unparse(n.value) for n in pyast.walk(fn) if isinstance(n, pyast.Return) and n.value is not None]
+        ctx.add(core.decided('C13/gcp/%s/returns-the-table-entry-of-the-worker-type' % lookup, len(tab) == 1 and isinstance(tab[0], pyast.Dict) and returns == ['MEMORY_PER_CORE_MIB[machine_worker_key]'] and any(pyast.unparse(n) == 'machine_worker_key = (machine_family, worker_type)' for n in fn.body), repr(returns), kind='scan'))
+        if len(tab) == 1 and isinstance(tab[0], pyast.Dict):
+            for k, v in zip(tab[0].keys, tab[0].values):
+                try:
+                    vals.append((pyast.unparse(k), pyast.literal_eval(v)))
+                except ValueError:
+                    vals.append((pyast.unparse(k), None))
+    else:
+        inl = Inliner(ctx, cx)
+        w = z3.Const('wt_any', pyvc.U)
+        for kind, payload, s in inl.run_function(lookup, [w], label='%s[values]' % lookup):
+            if kind == 'value':
+                vals.append(('%sMiB' % (payload,), payload if isinstance(payload, int) and not isinstance(payload, bool) else None))
+    ctx.add(core.decided('C13/%s/%s/per-core-memory-values-are-positive-integers' % (cloud, lookup), bool(vals) and all(isinstance(v, int) and v >= 1 for _, v in vals), repr(vals), kind='vc'))
+    return [(k.replace(' ', ''), v) for k, v in vals if isinstance(v, int) and v >= 1]
+
+
+WORKER = 'batch/batch/worker/worker.py'
+
+
+def worker_job_billing(ctx):
+    """(W) the call site that produces what a job is actually billed: worker.py Job.__init__, the statements from reading the
+    job spec's resources to `self.resources = instance_config.quantified_resources(...)` (fragment; the rest of the constructor
+    - mounts, secrets, tokens - does not touch these fields: scan below).  For ALL job specs and both kinds of instance:
+      * cpu and memory billed are the cores_mcpu / memory_bytes of the job spec;
+      * the storage billed is the external storage the worker attaches for the job (self.external_storage_in_gib, the size of
+        the disk created / the share of the data disk reserved in setup_io): the requested storage on a pool worker, and 0 on a
+        job-private instance - there the request is served by the instance's own data disk, which is billed as part of the
+        worker; so the job that owns a job-private worker is billed quantified_resources(cpu, memory, 0), the very call the
+        driver makes for the whole worker (create_vm: scan below);
+      * self.resources is the result of that call."""
+    sig = pyvc.find_function(pyast.parse(core.read_repo(IC)), 'InstanceConfig.quantified_resources')
+    qparams = [a.arg for a in sig.args.args[1:]]
+    ctx.add(core.decided('C13/InstanceConfig.quantified_resources/signature-is-cpu-memory-extra-storage', qparams == ['cpu_in_mcpu', 'memory_in_bytes', 'extra_storage_in_gib'], repr(qparams), kind='vacuity'))
+    calls_seen = []
+
+    def billed_call(eng, st, args, kw, node):
+        if len(args) > len(qparams) or set(kw) - set(qparams[len(args):]):
+            raise pyvc.Undecided('instance_config.quantified_resources is called with unexpected arguments')
+        vals = dict(zip(qparams, args))
+        vals.update(kw)
+        if set(vals) != set(qparams):
+            raise pyvc.Undecided('instance_config.quantified_resources is not given all of %r' % (qparams,))
+        cpu, mem, sto = [pyvc.to_z3(vals[p], 'int') for p in qparams]
+        env = st.env
+        me = env['self']
+        priv = pyvc.to_z3(env['instance_config'].fields['job_private'], 'bool')
+        calls_seen.append(node.lineno)
+        eng.oblige(st, 'billed/cpu-is-the-cores-of-the-job-spec', cpu == env['SPEC_CORES'])
+        eng.oblige(st, 'billed/memory-is-the-memory-of-the-job-spec', mem == env['SPEC_MEMORY'])
+        ext = me.fields.get('external_storage_in_gib')
+        eng.oblige(st, 'billed/storage-is-the-external-storage-the-worker-attaches-for-the-job', ext is not None and sto == pyvc.to_z3(ext, 'int'))
+        eng.oblige(st, 'billed/no-external-storage-is-billed-on-a-job-private-instance', z3.Implies(priv, sto == 0))
+        eng.oblige(st, 'billed/a-pool-job-is-billed-the-storage-of-its-spec', z3.Implies(z3.Not(priv), sto == env['SPEC_STORAGE']))
+        return eng.uf('billed', ['int', 'int', 'int'], 'U')(cpu, mem, sto)
+
+    def setup(eng, st):
+        cores, mem, sto = z3.Int('spec_cores_mcpu'), z3.Int('spec_memory_bytes'), z3.Int('spec_storage_gib')
+        st.env['SPEC_CORES'], st.env['SPEC_MEMORY'], st.env['SPEC_STORAGE'] = cores, mem, sto
+        st.assume(z3.And(cores >= 0, mem >= 0, sto >= 0))
+        st.env['job_spec'] = SRecord('dict', {'resources': SRecord('dict', {'cores_mcpu': cores, 'memory_bytes': mem, 'storage_gib': sto})})
+        st.env['instance_config'] = SRecord('InstanceConfig', {'job_private': z3.Bool('instance_job_private')})
+        st.env['self'] = SRecord('Job', {})
+
+    c = Contract(
+        path=WORKER,
+        qualname='Job.__init__',
+        label='worker.Job.__init__[billing]',
+        fragment=(r"re:^self\.cpu_in_mcpu = ", r"re:^self\.resources = "),
+        extra_inputs={'RESERVED_STORAGE_GB_PER_CORE': 'int'},
+        requires=['RESERVED_STORAGE_GB_PER_CORE >= 0'],
+        setup=setup,
+        float_as_real=True,
+        spec_funcs={'billed': (['int', 'int', 'int'], 'U'), 'valid_storage': (['int'], 'bool')},
+        calls={
+            'instance_config.quantified_resources': billed_call,
+            'is_valid_storage_request': lambda eng, st, args, kw, node: eng.uf('valid_storage', ['int'], 'bool')(pyvc.to_z3(args[1], 'int')),
+        },
+        raises={'AssertionError': 'not (SPEC_STORAGE == 0 or valid_storage(SPEC_STORAGE))'},
+        ensures=[
+            ('external-storage-is-zero-on-a-job-private-instance-else-the-request', 'self.external_storage_in_gib == ite(instance_config.job_private, 0, SPEC_STORAGE)'),
+            ('on-a-job-private-instance-the-request-is-served-by-the-instance-data-disk', 'implies(instance_config.job_private, self.data_disk_storage_in_gib == SPEC_STORAGE)'),
+            ('job-resources-are-the-quantities-of-spec-cpu-memory-and-attached-external-storage', 'self.resources == billed(SPEC_CORES, SPEC_MEMORY, self.external_storage_in_gib)'),
+            ('the-job-owning-a-job-private-worker-is-billed-like-the-worker-with-no-extra-storage', 'implies(instance_config.job_private, self.resources == billed(self.cpu_in_mcpu, self.memory_in_bytes, 0))'),
+        ],
+        canaries=[('never-bills-external-storage', 'self.resources == billed(SPEC_CORES, SPEC_MEMORY, 0)')],
+    )
+    pyvc.Engine(ctx, c).run()
+    ctx.add(core.decided('C13/worker.Job.__init__/the-billing-call-is-reached', bool(calls_seen), repr(calls_seen), kind='vacuity'))
+    _worker_scans(ctx)
+
+
+def _worker_scans(ctx):
+    """closed-world facts about batch/worker/worker.py and the drivers that the fragment contract rests on"""
+    tree = pyast.parse(core.read_repo(WORKER))
+    init = pyvc.find_function(tree, 'Job.__init__')
+
+    def attr_stores(root, attr):
+        out = []
+        for n in pyast.walk(root):
+            tg = n.targets if isinstance(n, (pyast.Assign, pyast.Delete)) else ([n.target] if isinstance(n, (pyast.AugAssign, pyast.AnnAssign)) else [])
+            for t in tg:
+                for x in pyast.walk(t):
+                    if isinstance(x, pyast.Attribute) and x.attr == attr and isinstance(x.ctx, (pyast.Store, pyast.Del)):
+                        out.append(x)
+            if isinstance(n, pyast.Call) and pyvc._dotted(n.func) in ('setattr', 'delattr') and len(n.args) >= 2 and not (isinstance(n.args[1], pyast.Constant) and n.args[1].value != attr):
+                out.append(n)
+        return out
+
+    inside = {id(x) for x in pyast.walk(init)}
+    # `self.<attr> = ...` inside a class that is not a Job (Container has its own cpu_in_mcpu) is another object's field
+    job_classes = {'Job'}
+    grew = True
+    while grew:
+        grew = False
+        for cdef in tree.body:
+            if isinstance(cdef, pyast.ClassDef) and cdef.name not in job_classes and any(pyvc._dotted(b) in job_classes for b in cdef.bases):
+                job_classes.add(cdef.name)
+                grew = True
+    foreign_self = set()
+    for cdef in tree.body:
+        if isinstance(cdef, pyast.ClassDef) and cdef.name not in job_classes:
+            foreign_self |= {id(x) for x in pyast.walk(cdef) if isinstance(x, pyast.Attribute) and isinstance(x.value, pyast.Name) and x.value.id == 'self'}
+    for attr in ('external_storage_in_gib', 'resources', 'cpu_in_mcpu', 'memory_in_bytes'):
+        allw = [x for x in attr_stores(tree, attr) if id(x) not in foreign_self]
+        outside = [x for x in allw if id(x) not in inside]
+        ctx.add(core.decided('C13/worker/%s-of-a-job-is-set-only-in-Job.__init__' % attr, bool(allw) and not outside, 'stores outside Job.__init__ at lines %r' % [x.lineno for x in outside], kind='frame'))
+    # within Job.__init__ each of them is assigned once, inside the verified fragment (nothing after the billing call changes them)
+    frag_lines = [n.lineno for n in init.body if pyast.unparse(n).startswith(('self.cpu_in_mcpu = ', 'self.resources = '))]
+    if len(frag_lines) == 2:
+        lo, hi = frag_lines
+        hi_end = [n.end_lineno for n in init.body if n.lineno == hi][0]
+        stray = [(a, x.lineno) for a in ('external_storage_in_gib', 'resources', 'cpu_in_mcpu', 'memory_in_bytes') for x in attr_stores(init, a) if not lo <= x.lineno <= hi_end]
+        ctx.add(core.decided('C13/worker.Job.__init__/billing-fields-are-assigned-only-in-the-verified-fragment', not stray, repr(stray), kind='frame'))
+    else:
+        ctx.add(core.decided('C13/worker.Job.__init__/billing-fields-are-assigned-only-in-the-verified-fragment', False, 'fragment boundaries not found: %r' % frag_lines, kind='frame'))
+    # the figure billed is the size of what the worker attaches: every disk the worker creates for a job has that size, and the
+    # status the worker reports to the driver carries self.resources
+    disks = [n for n in pyast.walk(tree) if isinstance(n, pyast.Call) and isinstance(n.func, pyast.Attribute) and n.func.attr == 'create_disk']
+    sizes = [pyast.unparse(k.value) for n in disks for k in n.keywords if k.arg == 'size_in_gb']
+    ctx.add(core.decided('C13/worker/every-disk-created-for-a-job-has-the-billed-external-storage-size', bool(disks) and len(sizes) == len(disks) and all(s == 'self.external_storage_in_gib' for s in sizes), repr(sizes), kind='scan'))
+    reported = [pyast.unparse(v) for n in pyast.walk(tree) if isinstance(n, pyast.Dict) for k, v in zip(n.keys, n.values) if isinstance(k, pyast.Constant) and k.value == 'resources' and isinstance(v, pyast.Attribute)]
+    ctx.add(core.decided('C13/worker/job-status-reports-the-resources-computed-at-construction', 'self.resources' in reported and all(r == 'self.resources' for r in reported), repr(reported), kind='scan'))
+    # the driver bills the WHOLE worker as quantified_resources(cores * 1000, machine memory, 0)
+    for path, qn in (('batch/batch/cloud/gcp/driver/resource_manager.py', 'GCPResourceManager.create_vm'), ('batch/batch/cloud/azure/driver/resource_manager.py', 'AzureResourceManager.create_vm')):
+        try:
+            fn = pyvc.find_function(pyast.parse(core.read_repo(path)), qn)
+        except (core.Undecided, OSError) as e:
+            raise pyvc.Undecided('anchor-moved: %s::%s (%s)' % (path, qn, e))
+        qcalls = [n for n in pyast.walk(fn) if isinstance(n, pyast.Call) and isinstance(n.func, pyast.Attribute) and n.func.attr == 'quantified_resources']
+        ok = len(qcalls) == 1
+        detail = ''
+        if ok:
+            call = qcalls[0]
+            names = ['cpu_in_mcpu', 'memory_in_bytes', 'extra_storage_in_gib']
+            vals = dict(zip(names, call.args))
+            vals.update({k.arg: k.value for k in call.keywords})
+            detail = repr({k: pyast.unparse(v) for k, v in vals.items()})
+            sto = vals.get('extra_storage_in_gib')
+            cpu = vals.get('cpu_in_mcpu')
+            defs = {t.id: pyast.unparse(n.value) for n in pyast.walk(fn) if isinstance(n, pyast.Assign) for t in n.targets if isinstance(t, pyast.Name)}
+            cpu_txt = defs.get(cpu.id) if isinstance(cpu, pyast.Name) else (pyast.unparse(cpu) if cpu is not None else None)
+            ok = isinstance(sto, pyast.Constant) and sto.value == 0 and type(sto.value) is int and cpu_txt in ('cores * 1000', '1000 * cores')
+            detail += ' cpu=%r' % (cpu_txt,)
+        ctx.add(core.decided('C13/%s/whole-worker-is-billed-all-cores-and-no-external-storage' % qn, ok, detail, kind='scan'))
+
+
 def native_witness(ctx):
     """concrete search on the real code, usable when the contracts no longer apply to a changed source (vc/check.py)"""
     return core.run_native(open(os.path.join(os.path.dirname(__file__), 'native', 'c13_replay.py')).read(), {})
@@ -465,5 +726,69 @@ def build(ctx):
         config_round_trip(ctx, cloud)
     quantified_resources(ctx)
     packing_lemma(ctx)
+    for cloud in MEMORY_HELPERS:
+        memory_share(ctx, cloud)
+    pool_job_memory(ctx)
+    worker_job_billing(ctx)
     ctx.witness_search = lambda: core.run_native(open(os.path.join(os.path.dirname(__file__), 'native', 'c13_replay.py')).read(), {})
     ctx.assume('resource quantities are Python ints (unbounded); constructor arguments of int type are non-negative (disk sizes, accelerator counts)')
+    ctx.assume('<cloud>_cores_mcpu_to_memory_bytes and the worker data-disk share in Job.__init__: float operations are exact real operations (mcpu / 1000 is a dyadic rational for the quarter-core multiples the front end admits, products stay below 2**53); the per-core MiB lookup is an uninterpreted positive function of the worker type (its real table values are enumerated from the source); PoolConfig.convert_requests_to_resources sees its helpers as uninterpreted functions')
+
+
+ICC = 'batch/batch/inst_coll_config.py'
+
+
+def pool_job_memory(ctx):
+    """(P) PoolConfig.convert_requests_to_resources - what the front end writes into the spec of a pool job: whenever it
+    accepts a request, the memory figure is <cloud>_cores_mcpu_to_memory_bytes of the cores figure it returns (the per-core
+    share (M) of the cores the job is scheduled and billed with - not of the cores requested, not the memory requested), the
+    cores fit the worker, and the storage is the converted request.  Helpers are uninterpreted functions here."""
+    cx = ClassIndex([ICC])
+    if 'PoolConfig' not in cx.classes:
+        raise pyvc.Undecided('anchor-moved: PoolConfig not found in %s' % ICC)
+    I, Us = z3.IntSort(), pyvc.U
+    mem = {'gcp': z3.Function('gcp_mem', I, Us, Us, I), 'azure': z3.Function('azure_mem', I, Us, I)}
+    adj = {'gcp': z3.Function('gcp_adjust', I, I, Us, Us, I), 'azure': z3.Function('azure_adjust', I, I, Us, I)}
+    pack = z3.Function('packable', I, I)
+    sto_none = z3.Function('storage_refused', Us, I, z3.BoolSort())
+    sto_gib = z3.Function('storage_gib', Us, I, I)
+    zi = lambda v: pyvc.to_z3(v, 'int')
+    zu = lambda v: pyvc.to_z3(v, 'U')
+
+    def storage(eng, st, args, kw, node):
+        cl, b = zu(args[0]), zi(args[1])
+        raise pyvc.Fork(node, [('storage-refused', sto_none(cl, b), 'value', None, None), ('storage-ok', z3.Not(sto_none(cl, b)), 'value', sto_gib(cl, b), None)])
+
+    calls = {
+        'requested_storage_bytes_to_actual_storage_gib': storage,
+        'gcp_adjust_cores_for_memory_request': lambda eng, st, args, kw, node: adj['gcp'](zi(args[0]), zi(args[1]), zu(args[2]), zu(args[3])),
+        'azure_adjust_cores_for_memory_request': lambda eng, st, args, kw, node: adj['azure'](zi(args[0]), zi(args[1]), zu(args[2])),
+        'adjust_cores_for_packability': lambda eng, st, args, kw, node: pack(zi(args[0])),
+        'gcp_cores_mcpu_to_memory_bytes': lambda eng, st, args, kw, node: mem['gcp'](zi(args[0]), zu(args[1]), zu(args[2])),
+        'azure_cores_mcpu_to_memory_bytes': lambda eng, st, args, kw, node: mem['azure'](zi(args[0]), zu(args[1])),
+    }
+    fam = z3.Const('GCP_MACHINE_FAMILY', Us)
+    inl = Inliner(ctx, cx, calls=calls, consts={'GCP_MACHINE_FAMILY': fam})
+    wt, wc = z3.Const('pool_worker_type', Us), z3.Int('pool_worker_cores')
+    rc, rm, rs = z3.Int('req_cores_mcpu'), z3.Int('req_memory_bytes'), z3.Int('req_storage_bytes')
+    for cloud in ('gcp', 'azure'):
+        me = cx.new_instance('PoolConfig', {'cloud': cloud, 'worker_type': wt, 'worker_cores': wc})
+        hyp = [rc >= 0, rm >= 0, rs >= 0, wc >= 1]
+        outs = inl.run_method(me, 'convert_requests_to_resources', args=[rc, rm, rs], pc=hyp, label='PoolConfig.convert_requests_to_resources[%s]' % cloud)
+        name = 'C13/PoolConfig.convert_requests_to_resources[%s]/' % cloud
+        bad = [o for o in outs if o[0] == 'raise']
+        ctx.add(core.decided(name + 'never-raises', not bad, repr([(b[1], b[2].trace[-3:]) for b in bad]), kind='vc'))
+        accepted = [(p, s) for k, p, s in outs if k == 'value' and p is not None]
+        shape = all(isinstance(p, tuple) and len(p) == 3 for p, s in accepted)
+        ctx.add(core.decided(name + 'accepts-with-a-(cores,memory,storage)-triple', bool(accepted) and shape, repr([p for p, s in accepted])[:300], kind='vacuity'))
+        if not (accepted and shape):
+            continue
+        for i, (p, s) in enumerate(accepted):
+            sfx = '' if len(accepted) == 1 else '#%d' % (i + 1)
+            c_, m_, g_ = zi(p[0]), zi(p[1]), zi(p[2])
+            share = mem['gcp'](c_, fam, wt) if cloud == 'gcp' else mem['azure'](c_, wt)
+            ctx.add(core.valid(name + 'memory-is-the-per-core-share-of-the-cores-returned' + sfx, list(s.pc), m_ == share))
+            ctx.add(core.valid(name + 'cores-returned-fit-the-worker' + sfx, list(s.pc), c_ <= wc * 1000))
+            ctx.add(core.valid(name + 'storage-is-the-converted-request' + sfx, list(s.pc), g_ == sto_gib(zu(cloud), rs)))
+            ctx.add(core.satisfiable(name + 'vacuity/acceptance-reachable' + sfx, list(s.pc)))
+            ctx.add(core.satisfiable(name + 'canary/memory-is-not-simply-the-memory-requested' + sfx, list(s.pc) + [m_ != rm]))
